@@ -120,6 +120,10 @@ func runC03(ctx *core.Ctx, idx int) *core.Result {
 		operandCensus(ctx, idx, res, g)
 		return res
 	}
+	if idx%25 == 19 {
+		verbatimLiteralCase(ctx, idx, res, g)
+		return res
+	}
 	switch idx % 5 {
 	case 0, 1:
 		// instantiate with multiplicities / precedence
@@ -520,6 +524,77 @@ func operandCensus(ctx *core.Ctx, idx int, res *core.Result, g *gen.G) {
 			dump(i, "wrong: "+strings.Join(strings.Fields(strings.SplitN(run.Out, "{\n", 2)[1]), " "))
 			res.Violate("C03/wrong-rewrite/operand-census", fmt.Sprintf("position %q with x = %s: %s", pos, kinds[i], ref.FirstDiff(got.Tree, exp.Tree, "")), rep)
 			continue
+		}
+	}
+}
+
+// verbatimLiteralCase: "all other '+' tokens appear verbatim". Literals on the '+' side whose text is easily damaged by
+// anything that treats the patch as lines of text: raw strings over several patch lines with blanks and tabs at the ends
+// of their lines, blank lines and lines that look like patch syntax inside them, strings with escapes, runes, numbers
+// in every base. Reference-free: every rewritten site holds the literal byte for byte (numbers: the same token).
+func verbatimLiteralCase(ctx *core.Ctx, idx int, res *core.Result, g *gen.G) {
+	r := g.R
+	ends := []string{" ", "\t", "  \t ", "", " ,", "\t\t"}
+	var rawLines []string
+	n := 2 + r.Intn(4)
+	for i := 0; i < n; i++ {
+		body := []string{"SELECT id,", "  name", "FROM t", "", "@@", "# not a comment", "-minus", "+plus", "...", " WHERE x = 'y'", "\tindented"}[r.Intn(11)]
+		rawLines = append(rawLines, body+ends[r.Intn(len(ends))])
+	}
+	raw := "`" + strings.Join(rawLines, "\n") + "`"
+	lits := []string{raw, `"tab\there \"quoted\" \\ \u00e9 "`, `'\''`, `'\x00'`, "0x1F", "0b1010", "0o17", "1_000_000", "1e-9", "0x1p-2", "2.5i", `"trailing blank "`}
+	lit := lits[0]
+	if r.Intn(3) == 0 {
+		lit = lits[1+r.Intn(len(lits)-1)]
+	}
+	var pt strings.Builder
+	pt.WriteString("@@\nvar x expression\n@@\n-tgtLit(x)\n")
+	for i, l := range strings.Split("replLit(x, "+lit+")", "\n") {
+		_ = i
+		pt.WriteString("+" + l + "\n")
+	}
+	var src strings.Builder
+	src.WriteString("package p\n\n")
+	ns := 1 + r.Intn(4)
+	var args []string
+	for i := 0; i < ns; i++ {
+		a := g.Atom()
+		args = append(args, a)
+		fmt.Fprintf(&src, "func f%d() {\n\tuse(tgtLit(%s))\n}\n\n", i, a)
+	}
+	in := src.String()
+	if !gen.Parses(in) {
+		res.Inconcl++
+		return
+	}
+	runs := applyAPI(pt.String(), []string{in})
+	if idx%50 == 19 {
+		if cr, _ := applyCLI(ctx, pt.String(), []string{in}); len(cr) == 1 {
+			runs = append(runs, cr[0])
+		}
+	}
+	for _, run := range runs {
+		res.Evals++
+		res.Ob("verbatim-literal-runs", 1)
+		res.Sig("verbatim-literal", lit, ns)
+		rep := replayFiles(pt.String(), in, run.Out)
+		if run.Pan != "" {
+			res.Violate("C03/engine-panic:"+core.PanicSignature(run.Pan), run.Pan, rep)
+			return
+		}
+		if run.Err != "" {
+			res.Violate("C03/engine-error", "literal on the '+' side: "+run.Err, rep)
+			return
+		}
+		if c := strings.Count(run.Out, lit); c != ns {
+			res.Violate("C03/plus-literal-not-verbatim", fmt.Sprintf("the '+' side spells the literal %q; it stands %d times in the output, there are %d sites", lit, c, ns), rep)
+			return
+		}
+		for i, a := range args {
+			if !strings.Contains(strings.Join(strings.Fields(run.Out), ""), "replLit("+strings.Join(strings.Fields(a), "")+",") {
+				res.Violate("C03/wrong-rewrite", fmt.Sprintf("site %d: replLit(%s, ...) is not in the output", i, a), rep)
+				return
+			}
 		}
 	}
 }
